@@ -11,7 +11,7 @@ import common as C
 import translate
 from props import progs
 
-KEYS = ("arrays", "cell", "n", "hist", "last_E", "labels", "N", "rng")
+KEYS = ("settings", "table", "arrays", "cell", "n", "hist", "last_E", "labels", "N", "rng")
 
 
 def same_energy(key, a, b, prog):
@@ -48,7 +48,7 @@ def run(res: C.Result):
             m0["minimum_count"] = 1
             if r2.random() < 0.5:
                 r2.choice(p["moves"])["interval"] = 2
-        if p["ensemble"] == "gc" and r2.random() < 0.6:
+        if p["ensemble"] == "gc" and r2.random() < 0.85:
             p["accessible_volume_factor"] = r2.choice([0.25, 0.5, 2.0])
         if p["ensemble"] == "isotension" and r2.random() < 0.7:
             a, b, c_ = (r2.choice([-0.02, 0.0, 0.01, 0.03]) for _ in range(3))
